@@ -44,10 +44,9 @@ Definition shift_node (shifted : bool) (from amount : Z) (slots : list Z) : list
 Definition variant_shifted (v : string) : bool := existsb (String.eqb v) shift_vars_arms.
 Definition shift_vars_complete : bool := forallb variant_shifted var_owning_variants.
 
-(* quantifier expressions that the traversal does not reach (the `Percentage` one is the recorded finding
-   C03:hoisting:verdict-differs:percentage-quantifier) *)
+(* quantifier expressions that the traversal does not reach: none since 21a3d45e (before, the `Percentage`
+   one: finding C03:hoisting:verdict-differs:percentage-quantifier) *)
 Definition quantifier_untraversed : list string :=
   filter (fun v => negb (existsb (String.eqb v) quantifier_traversed_variants)) quantifier_expr_variants.
 Definition quantifier_traversal_ok : bool :=
-  forallb (fun v => String.eqb v "Percentage"%string) quantifier_untraversed.
-
+  match quantifier_untraversed with [] => true | _ => false end.
